@@ -88,3 +88,19 @@ pub fn run(tier: &str, seed: u64) -> i32 {
     };
     finish(v, &kf)
 }
+
+/// Replay one recorded case against freshly generated Python code.
+pub fn replay_file(rec: &serde_json::Value) -> Option<(Vec<RFail>, std::collections::BTreeSet<String>)> {
+    let d = serde_json::from_value::<pdlv_core::model::Desc>(rec["model"].clone()).ok()?;
+    let text = plain(&d);
+    let rd = RemoteDesc { idx: 9000, desc: d, text: text.clone(), strata: vec![] };
+    let (pf, db) = parse("m9000.pdl", &text).ok()?;
+    let af = guarded(|| analyze(&pf)).ok()?.ok()?;
+    let code = guarded(|| pdl_compiler::backends::python::generate(&db, &af, None, &[])).ok()?;
+    let dir = work_dir().join(format!("py-replay-{}", std::process::id()));
+    let _ = std::fs::create_dir_all(&dir);
+    std::fs::write(dir.join("m9000.py"), code).ok()?;
+    let out = PyTarget::new(&dir).ok().map(|mut t| replay_one(Backend::Python, &mut t, &rd, rec));
+    let _ = std::fs::remove_dir_all(&dir);
+    out
+}
